@@ -141,8 +141,12 @@ def adjuster_table(ctx: Ctx) -> Tuple[Dict[Tuple[str, str], ast.AST], List[Tuple
                                         keys.add(target.slice.value)
                                     elif isinstance(target.slice, ast.Name):
                                         for lp in enclosing_loops(inner, stop=helper):
-                                            if txt(lp.target) == target.slice.id and isinstance(lp.iter, (ast.List, ast.Tuple)):
-                                                keys |= {e.value for e in lp.iter.elts if isinstance(e, ast.Constant)}
+                                            if txt(lp.target) == target.slice.id:
+                                                # a literal list, or a module-level constant holding one
+                                                from ..index import UNRESOLVED as _UNRESOLVED
+                                                listed = ctx.repo.const(ctx.repo.mod(HELP), lp.iter)
+                                                if listed is not _UNRESOLVED and isinstance(listed, (list, tuple, set, frozenset)):
+                                                    keys |= {e for e in listed if isinstance(e, str)}
         branches.append((test_node, types))
         for ftype in types:
             for key in keys:
